@@ -5,8 +5,8 @@
    decompressed and lower-cased (canonical RDATA), owners are lower-cased. *)
 EXTENDS Rdata
 
-RECURSIVE DecRRs(_, _, _, _)
-DecRRs(buf, cur, n, acc) ==
+RECURSIVE DecRRsG(_, _, _, _, _)
+DecRRsG(buf, cur, n, acc, lc) ==
   IF n = 0 THEN [ok |-> TRUE, rrs |-> acc, cursor |-> cur]
   ELSE LET o == DecodeName(buf, cur) IN
     IF ~o.ok THEN [ok |-> FALSE]
@@ -15,11 +15,13 @@ DecRRs(buf, cur, n, acc) ==
       ELSE LET rdl == U16(buf, e + 8) IN
         IF e + 10 + rdl > Len(buf) THEN [ok |-> FALSE]
         ELSE LET ty == U16(buf, e)
-                 rd == CanonMsgRdata(buf, e + 10, rdl, ty) IN
+                 rd == CanonMsgRdataG(buf, e + 10, rdl, ty, lc) IN
           IF rd = <<999>> THEN [ok |-> FALSE]
-          ELSE DecRRs(buf, e + 10 + rdl, n - 1,
-                 Append(acc, [owner |-> LowerName(o.name), type |-> ty, class |-> U16(buf, e + 2),
-                              ttlhi |-> U16(buf, e + 4), ttllo |-> U16(buf, e + 6), rdata |-> rd]))
+          ELSE DecRRsG(buf, e + 10 + rdl, n - 1,
+                 Append(acc, [owner |-> LN(lc, o.name), type |-> ty, class |-> U16(buf, e + 2),
+                              ttlhi |-> U16(buf, e + 4), ttllo |-> U16(buf, e + 6), rdata |-> rd]), lc)
+
+DecRRs(buf, cur, n, acc) == DecRRsG(buf, cur, n, acc, TRUE)
 
 DecodeMessage(buf) ==
   IF Len(buf) < 12 THEN [ok |-> FALSE]
@@ -44,24 +46,25 @@ DecodeMessage(buf) ==
 
 
 \* general form: any number of questions
-RECURSIVE DecQs(_, _, _, _)
-DecQs(buf, cur, n, acc) ==
+RECURSIVE DecQsG(_, _, _, _, _)
+DecQsG(buf, cur, n, acc, lc) ==
   IF n = 0 THEN [ok |-> TRUE, qs |-> acc, cursor |-> cur]
   ELSE LET q == DecodeName(buf, cur) IN
     IF ~q.ok \/ cur + q.first + 4 > Len(buf) THEN [ok |-> FALSE]
-    ELSE DecQs(buf, cur + q.first + 4, n - 1,
-               Append(acc, [name |-> LowerName(q.name), qtype |-> U16(buf, cur + q.first), qclass |-> U16(buf, cur + q.first + 2)]))
+    ELSE DecQsG(buf, cur + q.first + 4, n - 1,
+               Append(acc, [name |-> LN(lc, q.name), qtype |-> U16(buf, cur + q.first), qclass |-> U16(buf, cur + q.first + 2)]), lc)
 
-DecodeMessageN(buf) ==
+DecodeMessageG(buf, lc) ==
   IF Len(buf) < 12 THEN [ok |-> FALSE]
-  ELSE LET q == DecQs(buf, 12, U16(buf, 4), <<>>) IN
+  ELSE LET q == DecQsG(buf, 12, U16(buf, 4), <<>>, lc) IN
     IF ~q.ok THEN [ok |-> FALSE]
-    ELSE LET an == DecRRs(buf, q.cursor, U16(buf, 6), <<>>) IN
+    ELSE LET an == DecRRsG(buf, q.cursor, U16(buf, 6), <<>>, lc) IN
       IF ~an.ok THEN [ok |-> FALSE]
-      ELSE LET ns == DecRRs(buf, an.cursor, U16(buf, 8), <<>>) IN
+      ELSE LET ns == DecRRsG(buf, an.cursor, U16(buf, 8), <<>>, lc) IN
         IF ~ns.ok THEN [ok |-> FALSE]
-        ELSE LET ar == DecRRs(buf, ns.cursor, U16(buf, 10), <<>>) IN
+        ELSE LET ar == DecRRsG(buf, ns.cursor, U16(buf, 10), <<>>, lc) IN
           IF ~ar.ok \/ ar.cursor # Len(buf) THEN [ok |-> FALSE]
           ELSE [ok |-> TRUE, id |-> U16(buf, 0), flags |-> U16(buf, 2), qs |-> q.qs,
                 an |-> an.rrs, ns |-> ns.rrs, ar |-> ar.rrs]
+DecodeMessageN(buf) == DecodeMessageG(buf, TRUE)
 ====
